@@ -67,8 +67,158 @@ def run(chk, tier):
             chk.ok("R04.4", fn, "calls CelValue::%s once" % want)
         else:
             chk.bad("R04.4", fn, "%s must compare with strict `%s` only (first extreme kept); calls: %s" % (fn, want, [lib.short(c) for c in cal if c.startswith(CV)]), b.file)
+    # ---------------- decision tables by symbolic execution
+    import symex, semtables, collections, itertools
+    CVT = "rscel::types::cel_value::CelValue"
+
+    class CmpPolicy(semtables.LogicPolicy):
+        max_paths = 30000
+        loop_limit = 2
+
+        def stub(self, interp, st, path, c, args, t, caller):
+            if path.endswith("CelValue::type_prop"):
+                # the widening table itself is C03 R03.7; here the pair after widening is an arbitrary pair (ta, tb)
+                return [(st, ("tup", (symex.U("ta", CVT), symex.U("tb", CVT))))]
+            return None
+
+    def cell(st, who):
+        v = [c[2] for c in st.cond if c[0] == "variant" and c[3] == who]
+        return v[0] if v else "other"
+
+    chk.rule("R04.5", "ord's table: the eight comparable types compare their payloads with partial_cmp, a mixed int/uint pair left by widening orders by magnitude (uint above i64::MAX is greater), every other pair is an error")
+    chk.rule("R04.6", "eq's table is symmetric in its operand classes: whatever pair (A, B) is handled, (B, A) is handled the same way; equal-type pairs compare payloads")
+    chk.rule("R04.7", "lt / le / gt / ge accept exactly {Less}, {Less, Equal}, {Greater}, {Greater, Equal} of the one ordering")
+    it = symex.Interp(F, CmpPolicy())
+    outs = it.run(F.body(CV + "ord"), [symex.U("a", CVT), symex.U("b", CVT)])
+    tab = collections.defaultdict(set)
+    for st, r in outs:
+        tab[(cell(st, "ta"), cell(st, "tb"))].add(symex.render(r))
+    comparable = ["Int", "UInt", "Float", "Bool", "String", "Bytes", "TimeStamp", "Duration"]
+    for ty in comparable:
+        got = tab.get((ty, ty), set())
+        if len(got) == 1 and re.match(r"^Result::Ok\((PartialOrd( for \w+)?::partial_cmp)\(ta\.%s\.0, tb\.%s\.0\)\)$" % (ty, ty), next(iter(got))):
+            chk.ok("R04.5", "ord|%s,%s" % (ty, ty), next(iter(got))[:80])
+        else:
+            chk.bad("R04.5", "ord|%s,%s" % (ty, ty), "two %s values must be ordered by partial_cmp of their payloads (left, right); found %s" % (ty, sorted(got)), "rscel/src/types/cel_value.rs")
+    mixed = {("Int", "UInt"): "Result::Ok(Option::Some(Ordering::Less))", ("UInt", "Int"): "Result::Ok(Option::Some(Ordering::Greater))"}
+    for k_, w_ in mixed.items():
+        if tab.get(k_) == {w_}:
+            chk.ok("R04.5", "ord|%s,%s" % k_, w_)
+        else:
+            chk.bad("R04.5", "ord|%s,%s" % k_, "an int / uint pair that widening leaves mixed (uint above i64::MAX) must order the uint as greater: %s" % sorted(tab.get(k_, [])), "rscel/src/types/cel_value.rs")
+    for k_, got in sorted(tab.items()):
+        if k_[0] == k_[1] and k_[0] in comparable or k_ in mixed:
+            continue
+        if all(g.startswith("Result::Err(") for g in got):
+            chk.ok("R04.5", "ord|%s,%s" % k_, "error")
+        else:
+            chk.bad("R04.5", "ord|%s,%s" % k_, "comparing %s with %s must be an error, found %s" % (k_[0], k_[1], sorted(got)[:2]), "rscel/src/types/cel_value.rs")
+    # eq symmetry
+    eqb = F.body("<rscel::types::cel_value::CelValue as rscel::types::cel_value_dyn::CelValueDyn>::eq")
+    it = symex.Interp(F, CmpPolicy())
+    outs = it.run(eqb, [symex.U("a", "&" + CVT), symex.U("b", "&" + CVT)])
+    handled = collections.defaultdict(set)
+    for st, r in outs:
+        a_, b_ = cell(st, "ta"), cell(st, "tb")
+        rr = symex.render(r)
+        # class of the outcome: 'payload' (a comparison of the two payloads), 'const' false, 'rec' element-wise, 'dyn'
+        if rr in ("CelValue::false_()",):
+            cls = "false"
+        elif rr in ("CelValue::true_()",):
+            cls = "true"
+        elif rr.startswith("CelValue::from_bool("):
+            cls = "cmp"
+        elif rr.startswith("CelValue::from_err("):
+            cls = "err"
+        elif rr in ("a", "b"):
+            cls = "failed operand"
+        else:
+            cls = "other:" + rr[:40]
+        handled[(a_, b_)].add(cls)
+    variants = sorted(set(x for k_ in handled for x in k_) - {"other"})
+    asym = []
+    for x, y in itertools.permutations(variants, 2):
+        if x == "Dyn" or y == "Dyn":
+            continue           # user objects: assumption A-user
+        hx = handled.get((x, y))
+        hy = handled.get((y, x))
+        special_x = hx is not None and hx - {"false"}
+        special_y = hy is not None and hy - {"false"}
+        if bool(special_x) != bool(special_y):
+            asym.append((x, y, sorted(hx or []), sorted(hy or ["false (falls through)"])))
+    if asym:
+        for x, y, hx, hy in asym:
+            if (y, x) < (x, y) and any(a2 == y and b2 == x for a2, b2, _, _ in asym):
+                continue
+            chk.bad("R04.6", "eq|%s,%s" % (x, y), "`==` handles (%s, %s) as %s but (%s, %s) as %s: equality is not symmetric for this pair of operand types" % (x, y, hx, y, x, hy), "rscel/src/types/cel_value.rs")
+    else:
+        chk.ok("R04.6", "eq|symmetric handling", {"pairs": len(handled)})
+    for ty in ["Int", "UInt", "Float", "Bool", "String", "Bytes", "TimeStamp", "Duration", "Type"]:
+        got = handled.get((ty, ty), set())
+        if got == {"cmp"}:
+            chk.ok("R04.6", "eq|%s,%s" % (ty, ty))
+        else:
+            chk.bad("R04.6", "eq|%s,%s" % (ty, ty), "two %s values must be equal iff their payloads are: %s" % (ty, sorted(got)), "rscel/src/types/cel_value.rs")
+    if handled.get(("Null", "Null")) == {"true"}:
+        chk.ok("R04.6", "eq|Null,Null")
+    else:
+        chk.bad("R04.6", "eq|Null,Null", str(handled.get(("Null", "Null"))), "rscel/src/types/cel_value.rs")
+    # lt / le / gt / ge constant sets
+    want_sets = {"lt": {"Less"}, "le": {"Less", "Equal"}, "gt": {"Greater"}, "ge": {"Greater", "Equal"}}
+
+    class OrdPolicy(semtables.LogicPolicy):
+        max_paths = 2000
+
+        def stub(self, interp, st, path, c, args, t, caller):
+            if path.endswith("CelValue::ord"):
+                return [(st, symex.U("o", "std::result::Result<std::option::Option<std::cmp::Ordering>, rscel::types::cel_error::CelError>"))]
+            return None
+    for m, want in want_sets.items():
+        it = symex.Interp(F, OrdPolicy())
+        outs = it.run(F.body(CV + m), [symex.U("a", CVT), symex.U("b", CVT)])
+        PRED = re.compile(r"^PartialEq::eq\(o\.Ok\.0, Option::(?:Some\(Ordering::(\w+)\)|(None))\)$")
+        accept, undecided = set(), []
+        for w in ("Less", "Equal", "Greater", "None"):
+            res = set()
+            for st, r in outs:
+                rr = symex.render(r)
+                if "o.Err" in rr or rr in ("a", "b"):
+                    continue
+                feasible = True
+                for c in st.cond:
+                    if c[0] in ("eq", "ne") and isinstance(c[1], str):
+                        mm = PRED.match(c[1])
+                        if mm:
+                            holds = (mm.group(1) or mm.group(2)) == w
+                            truth = (c[0] == "ne")          # ('ne', p, (0,)) : p is true ; ('eq', p, 0) : p is false
+                            if holds != truth:
+                                feasible = False
+                if not feasible:
+                    continue
+                mm = re.match(r"^Into::into<T><-U\((.*)\)$", rr)
+                inner = mm.group(1) if mm else rr
+                if inner == "1":
+                    res.add(True)
+                elif inner == "0":
+                    res.add(False)
+                else:
+                    m2 = PRED.match(inner)
+                    if m2:
+                        res.add((m2.group(1) or m2.group(2)) == w)
+                    else:
+                        undecided.append(rr)
+            if res == {True}:
+                accept.add(w)
+            elif res != {False}:
+                undecided.append("%s -> %s" % (w, sorted(res)))
+        if undecided:
+            chk.bad("R04.7", m, "the result of %s is not a function of the one ordering ord(a, b): %s" % (m, undecided[:3]), "rscel/src/types/cel_value.rs")
+        elif accept == want:
+            chk.ok("R04.7", m, sorted(accept))
+        else:
+            chk.bad("R04.7", m, "%s is true for the orderings %s of ord(a, b); the operator means %s" % (m, sorted(accept), sorted(want)), "rscel/src/types/cel_value.rs")
     return chk.finish(
         "Structural wiring of the comparison layer: != = !==, a single ord behind < <= > >=, no value-changing casts in ord/eq/type_prop, "
-        "sort/min/max wired to the same order with strict replacement. Decides the wiring; does not decide transitivity on doubles/NaN or the "
-        "constant sets inside lt/le/gt/ge.",
-        ["rustc MIR + resolved callees"], ["default features"], technique="MIR callee/cast rules over comparison functions")
+        "sort/min/max wired to the same order with strict replacement. Decision tables of ord / eq / lt / le / gt / ge by symbolic execution: ordering per type pair, symmetric handling of equality, accepted "
+        "Ordering constants. Does not decide transitivity on doubles/NaN (std partial_cmp).",
+        ["rustc MIR + resolved callees"], ["default features"], technique="MIR callee/cast rules + symbolic execution of ord / eq / relations into decision tables")
